@@ -47,6 +47,7 @@ Byte(h1, h2) == LET x == <<h1, h2>>
                      [] x = <<"2", "5">> -> "%"
                      [] x = <<"3", "A">> -> ":"
                      [] x = <<"2", "3">> -> "#"
+                     [] x = <<"2", "B">> -> "+"
                      [] x = <<"3", "F">> -> "?"
                      [] x = <<"2", "F">> -> "/"
                      [] x = <<"2", "E">> -> "."
@@ -59,7 +60,8 @@ Byte(h1, h2) == LET x == <<h1, h2>>
 UMark == "U"                                 \* stands for one non-ASCII character (U+00E9), UTF-8 bytes C3 A9
 UBytes == <<"%", "C", "3", "%", "A", "9">>
 
-\* left-to-right scan: "%" followed by two hex digits is one byte, any other "%" stays
+\* left-to-right scan: "%" followed by two hex digits is one byte, any other "%" stays;
+\* this is unquote, NOT unquote_plus: "+" is an ordinary character
 RECURSIVE UnquoteFrom(_, _)
 UnquoteFrom(s, i) ==
   IF i > Len(s) THEN <<>>
@@ -74,6 +76,7 @@ QuoteChar(c) == CASE c = " " -> <<"%", "2", "0">>
                   [] c = "%" -> <<"%", "2", "5">>
                   [] c = ":" -> <<"%", "3", "A">>
                   [] c = "#" -> <<"%", "2", "3">>
+                  [] c = "+" -> <<"%", "2", "B">>
                   [] c = "?" -> <<"%", "3", "F">>
                   [] c = UMark -> UBytes
                   [] Len(c) = 4 -> <<"%", SubSeq(c, 2, 2), SubSeq(c, 3, 3)>>     \* a byte token "<XY>" (control character)
